@@ -48,10 +48,11 @@ static uint8_t ubuf[32];		/* user buffer, canaries around [8, 8+buflen) */
 static int fd = -1, cfg, slen, send_;
 static int ops, nreq, active, cur_id, callbacks, timer_armed, in_timer_cancel;
 static void * cookie, * timer_cookie;
-static size_t pos_at_start; static int calls_at_idle;
+static size_t pos_at_start; static int calls_at_idle, ends_at_start;
 static long results[4]; static int nresults;
 static int cancelled_ids[8];
 
+static void livelock(void);
 static void
 kernel_misuse_check(void)
 {
@@ -144,6 +145,10 @@ static void
 rw_prepoll(const struct pollfd * fds, int nfds, int timeout)
 {
 	rw_invariants();
+	if (active && sub == 0 && fk_in_end_deliveries(fd) > ends_at_start)
+		FAIL("read-end-ignored", "recv reported %s to request %d but the request is still pending at the next poll", send_ == FK_END_EOF ? "end-of-stream" : "an error", cur_id);
+	if (active && sub == 1 && fk_send_errors(fd) > ends_at_start)
+		FAIL("write-error-ignored", "send reported an error to request %d but the request is still pending at the next poll", cur_id);
 	if (active && !fk_polled(fds, nfds, fd, sub == 0 ? POLLIN : POLLOUT))
 		FAIL("lost-wakeup", "request %d is active but descriptor %d is not polled for %s: it can never complete", cur_id, fd, sub == 0 ? "reading" : "writing");
 	if (mc_failed()) mc_cut("violation recorded");
@@ -154,7 +159,7 @@ static void
 rw_body(void)
 {
 	size_t i;
-	fk_reset(); fk_pre_poll_hook = rw_prepoll;
+	fk_reset(); fk_pre_poll_hook = rw_prepoll; fk_horizon_hook = livelock;
 	{ static const size_t am[] = {1, 2, 3}; fk_set_arrival_menu(am, 3); fk_set_space_menu(am, 3); }
 	for (i = 0; i < sizeof(stream); i++) stream[i] = (uint8_t)(0xA0 + i);
 	ops = nreq = active = callbacks = timer_armed = nresults = 0; cookie = timer_cookie = NULL; cur_id = 0; calls_at_idle = 0; pos_at_start = 0;
@@ -186,6 +191,7 @@ rw_body(void)
 			if (sub == 1) for (i = 0; i < RW[cfg].buflen; i++) ubuf[UB + i] = (uint8_t)(0x30 + nreq * 16 + (int)i);
 			cur_id = ++nreq;
 			pos_at_start = sub == 0 ? fk_in_read(fd) : fk_outlen(fd);
+			ends_at_start = sub == 0 ? fk_in_end_deliveries(fd) : fk_send_errors(fd);
 			if (sub == 0) cookie = network_read(fd, ubuf + UB, RW[cfg].buflen, RW[cfg].min, rw_callback, (void *)(uintptr_t)cur_id);
 			else cookie = network_write(fd, ubuf + UB, RW[cfg].buflen, RW[cfg].min, rw_callback, (void *)(uintptr_t)cur_id);
 			mc_note("network_%s(fd %d, buflen %zu, min %zu) -> request %d%s", subname[sub], fd, RW[cfg].buflen, RW[cfg].min, cur_id, cookie ? "" : " FAILED");
@@ -205,6 +211,7 @@ rw_body(void)
 	{ size_t r = fk_in_read(fd), o = fk_outlen(fd); mc_outcome(&r, sizeof(r)); mc_outcome(&o, sizeof(o)); }
 }
 
+static void livelock(void){ FAIL("livelock", "the event loop polled %d times in one execution without the request completing: the code is spinning", fk_npolls); }
 static void
 rw_blocked(void)
 {
@@ -256,7 +263,14 @@ conn_state(int where, int extra)
 static void
 conn_invariants(void)
 {
+	int k;
 	kernel_misuse_check();
+	/* an attempt may be given up while still in progress only by its own timeout (or by cancel) */
+	for (k = 0; k < fk_nsockets() && k < 3; k++)
+		if (fk_attempt_pending_at_close(k) && !conn_cancelled) {
+			if (!use_timeo) FAIL("connect-abandoned", "attempt on address %d was closed while still connecting although no timeout was requested", k);
+			else if (fk_attempt_closed(k) - fk_attempt_start(k) < 5000) FAIL("connect-timeout-early", "attempt on address %d was given up %lld us after it started; the per-address timeout is 5000 us", k, fk_attempt_closed(k) - fk_attempt_start(k));
+		}
 	if (!active && callbacks + conn_cancelled > 0) {
 		/* finished or cancelled: nothing further may be attempted */
 		if (conn_cancelled && fk_open_count() != 0) FAIL("connect-leak", "%d descriptors open after cancel", fk_open_count());
@@ -272,7 +286,7 @@ static void
 conn_body(void)
 {
 	int i; struct timeval tv = {0, 5000};
-	fk_reset(); fk_pre_poll_hook = conn_prepoll;
+	fk_reset(); fk_pre_poll_hook = conn_prepoll; fk_horizon_hook = livelock;
 	ops = active = callbacks = conn_cancelled = 0; conn_result = -2; cookie = NULL;
 	naddr = mc_pick(4, "addresses");
 	for (i = 0; i < 3; i++) behav[i] = 0;
@@ -340,7 +354,7 @@ static void acc_prepoll(const struct pollfd * fds, int nfds, int timeout){ kerne
 static void
 acc_body(void)
 {
-	fk_reset(); fk_pre_poll_hook = acc_prepoll; fk_accept_hard_errors = 0;
+	fk_reset(); fk_pre_poll_hook = acc_prepoll; fk_horizon_hook = livelock; fk_accept_hard_errors = 0;
 	ops = nreq = active = callbacks = nacc = 0; cookie = NULL; cur_id = 0;
 	lfd = fk_listener_new();
 	for (;;) {
@@ -439,7 +453,7 @@ static void
 dx_body(void)
 {
 	size_t i; int f, d;
-	fk_reset(); fk_pre_poll_hook = dx_prepoll; fk_allow_hup = 1;
+	fk_reset(); fk_pre_poll_hook = dx_prepoll; fk_horizon_hook = livelock; fk_allow_hup = 1;
 	{ static const size_t am[] = {1, 2}; fk_set_arrival_menu(am, 2); fk_set_space_menu(am, 2); }
 	for (i = 0; i < sizeof(stream); i++) stream[i] = (uint8_t)(0xA0 + i);
 	memset(DQ, 0, sizeof(DQ)); ops = dnext = dcallbacks = 0;
